@@ -62,10 +62,15 @@ func runERRPAIR(c *Ctx) {
 				}
 			}
 			for _, v := range vals {
-				for _, st := range heapStoresOf(v) {
+				stores, edges := heapStoresOf(v)
+				for _, st := range stores {
 					what := fmt.Sprintf("result of %s stored to %s", calleeLabel(c, ci), ir.Sym(st.Addr))
 					pos := P.InstrPos(st)
-					if errV != nil && (nilFactOn(st.Block(), errV, true) || errNilByFlow(st, errV)) {
+					atEdges := errV != nil && len(edges[st]) > 0
+					for _, pt := range edges[st] {
+						atEdges = atEdges && (errKnownNil(pt, errV) || errNilOnEdge(pt, errV))
+					}
+					if errV != nil && (atEdges || errKnownNil(st, errV)) {
 						c.OK(pos, what, "stored only where the call's error is known to be nil", false)
 					} else if base, _, _, isNode := nodeBaseOfAddr(st.Addr); isNode && c.Facts.Own().Classify(base, st).Own == Fresh {
 						c.OK(pos, what, "written into a node allocated by this very call (a private copy nobody else sees; it is dropped with the error)", false)
@@ -98,13 +103,16 @@ func errNilByFlow(st ssa.Instruction, errV ssa.Value) bool {
 	}, func(ssa.Instruction) bool { return false })
 }
 
-// heapStoresOf: the stores of v (possibly boxed into an interface or converted) whose address is reached through a
-// pointer, a slice, a parameter, a free variable or a global.
-func heapStoresOf(v ssa.Value) []*ssa.Store {
-	var out []*ssa.Store
+// heapStoresOf: the stores of v (possibly boxed into an interface, converted, or merged with the values of sibling
+// arms by a φ) whose address is reached through a pointer, a slice, a parameter, a free variable or a global.
+// edges[st] lists, for a store reached through φ nodes, the ends of the predecessor blocks through which v itself
+// flows into the merge: where the error was tested inside the arm (`l, err := split(); if err != nil { return }`
+// in one arm, the store after the arms meet), it is at those points that it is known to be nil.
+func heapStoresOf(v ssa.Value) (out []*ssa.Store, edges map[*ssa.Store][]ssa.Instruction) {
+	edges = map[*ssa.Store][]ssa.Instruction{}
 	seen := map[ssa.Value]bool{}
-	var walk func(x ssa.Value, d int)
-	walk = func(x ssa.Value, d int) {
+	var walk func(x ssa.Value, d int, via []ssa.Instruction)
+	walk = func(x ssa.Value, d int, via []ssa.Instruction) {
 		if seen[x] || d > 4 || x.Referrers() == nil {
 			return
 		}
@@ -114,20 +122,36 @@ func heapStoresOf(v ssa.Value) []*ssa.Store {
 			case *ssa.Store:
 				if y.Val == x && !localAddr(y.Addr) {
 					out = append(out, y)
+					edges[y] = via
 				}
 			case *ssa.MakeInterface:
-				walk(y, d+1)
+				walk(y, d+1, via)
+			case *ssa.Phi:
+				if len(via) > 0 {
+					walk(y, d+1, via) // a second merge: keep the innermost points
+					continue
+				}
+				var pts []ssa.Instruction
+				for i, e := range y.Edges {
+					if e == x && i < len(y.Block().Preds) {
+						pb := y.Block().Preds[i]
+						if len(pb.Instrs) > 0 {
+							pts = append(pts, pb.Instrs[len(pb.Instrs)-1])
+						}
+					}
+				}
+				walk(y, d+1, pts)
 			case *ssa.ChangeType:
-				walk(y, d+1)
+				walk(y, d+1, via)
 			case *ssa.ChangeInterface:
-				walk(y, d+1)
+				walk(y, d+1, via)
 			case *ssa.Convert:
-				walk(y, d+1)
+				walk(y, d+1, via)
 			}
 		}
 	}
-	walk(v, 0)
-	return out
+	walk(v, 0, nil)
+	return out, edges
 }
 
 // localAddr: the address names (part of) a local variable of the enclosing function that no closure or callee sees
@@ -152,6 +176,61 @@ func localAddr(a ssa.Value) bool {
 		default:
 			return false
 		}
+	}
+	return false
+}
+
+// errKnownNil: the call's error — or the merge of it with the errors of sibling arms (`name, err = f()` in one arm
+// of a switch, `if err != nil` after the arms meet: on the paths that came through the call the merged value is the
+// call's error) — is known to be nil at st.
+func errKnownNil(st ssa.Instruction, errV ssa.Value) bool {
+	cands := []ssa.Value{errV}
+	for i := 0; i < len(cands) && i < 6; i++ {
+		if refs := cands[i].Referrers(); refs != nil {
+			for _, r := range *refs {
+				if phi, ok := r.(*ssa.Phi); ok {
+					dup := false
+					for _, x := range cands {
+						dup = dup || x == ssa.Value(phi)
+					}
+					if !dup {
+						cands = append(cands, phi)
+					}
+				}
+			}
+		}
+	}
+	for _, e := range cands {
+		if nilFactOn(st.Block(), e, true) || errNilByFlow(st, e) {
+			return true
+		}
+	}
+	return false
+}
+
+// errNilOnEdge: pt ends a block with `if err != nil` (or == nil) on the call's error and the merge the value flows
+// into is the successor taken when it is nil.
+func errNilOnEdge(pt ssa.Instruction, errV ssa.Value) bool {
+	iff, ok := pt.(*ssa.If)
+	if !ok {
+		return false
+	}
+	tv, tnn, isNil := ir.NilTest(iff.Cond)
+	if !isNil || !sameValue(tv, errV) {
+		return false
+	}
+	b := iff.Block()
+	// the successor on which the error is nil: Succs[1] when "true means non-nil", Succs[0] otherwise
+	nilSucc := b.Succs[0]
+	if tnn {
+		nilSucc = b.Succs[1]
+	}
+	// the φ this point was taken from sits in that successor (the other one returns the error)
+	for _, ins := range nilSucc.Instrs {
+		if _, isPhi := ins.(*ssa.Phi); isPhi {
+			return true
+		}
+		break
 	}
 	return false
 }
